@@ -13,8 +13,13 @@ const QuotasAvailable = false
 
 type runtimeContextManager struct {
 	messageHandler Callable
-	parent         *runtimeContextManager
-	weakRefPool    luagc.Pool
+
+	// The thread that installed the message handler, if known.  If not nil, the
+	// message handler only applies to errors occurring in this thread.
+	messageHandlerThread *Thread
+
+	parent      *runtimeContextManager
+	weakRefPool luagc.Pool
 }
 
 var _ RuntimeContext = (*runtimeContextManager)(nil)
@@ -72,6 +77,7 @@ func (m *runtimeContextManager) RuntimeContext() RuntimeContext {
 func (m *runtimeContextManager) PushContext(ctx RuntimeContextDef) {
 	parent := *m
 	m.messageHandler = ctx.MessageHandler
+	m.messageHandlerThread = nil
 	m.parent = &parent
 }
 
